@@ -2,12 +2,452 @@ package main
 
 import (
 	"fmt"
+	"go/token"
+	"go/types"
+	"regexp"
+	"sort"
+	"strings"
 
 	"golang.org/x/tools/go/ssa"
 )
 
+// ---------- frame / reset obligations (C07, C12)
+//
+// For a pass whose per-file state lives in package-level variables: every variable that a listener method reads and that
+// anything in the package writes must, after the per-file constructor(s) have run, hold a value that does not depend on
+// the state left behind by earlier files. The obligation `reset.<var>` is decided on the generated encoding of the real
+// constructor: the symbolic post-value of the variable must not depend (through the definitions of the encoding) on any
+// symbol of the initial memory. This is a sufficient condition for the relational statement "two runs from different
+// pre-states with equal arguments end with equal values".
+
+var identRe = regexp.MustCompile(`[A-Za-z_][A-Za-z0-9_.!]*`)
+
 func resetObligations(w *World, ss *SpecSet, rc ResetCfg) (*FuncResult, error) {
-	return nil, fmt.Errorf("reset generator not built yet")
+	var ctors []*ssa.Function
+	for _, n := range strings.Split(rc.Constructor, ",") {
+		fn, err := w.find(strings.TrimSpace(n))
+		if err != nil {
+			return nil, err
+		}
+		ctors = append(ctors, fn)
+	}
+	pkg := ctors[0].Pkg
+	// listener methods: pkgname.Type
+	parts := strings.SplitN(rc.Listener, ".", 2)
+	if len(parts) != 2 {
+		return nil, fmt.Errorf("reset: listener must be pkgname.Type, got %q", rc.Listener)
+	}
+	var methods []*ssa.Function
+	for key, fn := range w.Funcs {
+		if fn.Pkg != nil && fn.Pkg.Pkg.Name() == parts[0] && strings.Contains(key, "."+parts[1]+".") && fn.Pkg == pkg {
+			methods = append(methods, fn)
+		}
+	}
+	if len(methods) == 0 {
+		return nil, fmt.Errorf("reset: no methods found for %s", rc.Listener)
+	}
+	reads := map[*ssa.Global]bool{}
+	for _, m := range methods {
+		for g := range w.frameOf(m).reads {
+			if g.Pkg == pkg {
+				reads[g] = true
+			}
+		}
+	}
+	writes := map[*ssa.Global]bool{}
+	for _, fn := range w.allRepoFuncs() {
+		if fn.Pkg != pkg || fn.Name() == "init" {
+			continue
+		}
+		for g := range w.frameOf(fn).writes {
+			if g.Pkg == pkg {
+				writes[g] = true
+			}
+		}
+	}
+	var S []*ssa.Global
+	for g := range reads {
+		if writes[g] {
+			S = append(S, g)
+		}
+	}
+	sort.Slice(S, func(i, j int) bool { return S[i].Name() < S[j].Name() })
+
+	res := &FuncResult{Name: "reset:" + fnFull(ctors[0]), Fn: ctors[0]}
+	// encode every constructor once; record, per variable, what its post-value depends on
+	type ctorRun struct {
+		fn   *ssa.Function
+		enc  *enc
+		post map[string]Term
+		deps map[string]map[string]bool
+	}
+	var runs []ctorRun
+	for _, c := range ctors {
+		e := newEnc(w, ss, c)
+		e.sweep = false
+		e.noConst = false
+		fr := newFrame(c, nil)
+		e.fr = fr
+		fr.cur = "true"
+		e.stack = []*ssa.Function{c}
+		for _, p := range c.Params {
+			e.value(p)
+		}
+		fr.entryMem = map[string]Term{}
+		e.initMem = fr.entryMem
+		for _, g := range S {
+			e.ensureGlobal(g)
+		}
+		func() {
+			defer func() {
+				if r := recover(); r != nil {
+					res.Errors = append(res.Errors, fmt.Sprintf("ENGINE-ERROR in %s: %v", fnFull(c), r))
+				}
+			}()
+			e.run(fr, "true")
+		}()
+		post := map[string]Term{}
+		if len(fr.returns) > 0 {
+			var ats []Term
+			var mems []map[string]Term
+			for _, r := range fr.returns {
+				ats = append(ats, r.at)
+				mems = append(mems, r.mem)
+			}
+			e.fr = fr
+			m := e.mergeMem(mems, ats)
+			for _, g := range S {
+				post[g.Name()] = m[e.globalKey(g)]
+			}
+		}
+		// definition graph of the encoding
+		defOf := map[string][]string{}
+		for _, d := range e.defs {
+			if strings.HasPrefix(d, "(= ") {
+				rest := d[3:]
+				name := rest
+				if i := strings.IndexAny(rest, " )"); i > 0 {
+					name = rest[:i]
+				}
+				defOf[name] = append(defOf[name], rest[len(name):])
+			}
+		}
+		deps := map[string]map[string]bool{}
+		for _, g := range S {
+			seen := map[string]bool{}
+			var walk func(t string)
+			walk = func(t string) {
+				for _, id := range identRe.FindAllString(t, -1) {
+					if seen[id] {
+						continue
+					}
+					seen[id] = true
+					for _, body := range defOf[id] {
+						walk(body)
+					}
+				}
+			}
+			walk(post[g.Name()])
+			init := map[string]bool{}
+			for id := range seen {
+				if strings.HasPrefix(id, "g0_") || strings.HasPrefix(id, "heap0_") || strings.HasPrefix(id, "hv_") || strings.HasPrefix(id, "hvl_") {
+					init[id] = true
+				}
+			}
+			deps[g.Name()] = init
+		}
+		runs = append(runs, ctorRun{c, e, post, deps})
+		res.Notes = append(res.Notes, e.notes...)
+	}
+	enc0 := runs[0].enc
+	res.Enc = enc0
+	for _, g := range S {
+		ok := false
+		var why []string
+		for _, r := range runs {
+			d := r.deps[g.Name()]
+			if r.post[g.Name()] != "" && len(d) == 0 {
+				ok = true
+			} else {
+				var ds []string
+				for k := range d {
+					ds = append(ds, k)
+				}
+				sort.Strings(ds)
+				if len(ds) > 4 {
+					ds = append(ds[:4], "…")
+				}
+				why = append(why, fmt.Sprintf("after %s its value depends on the previous state (%s)", fnFull(r.fn), strings.Join(ds, ", ")))
+			}
+		}
+		goal := "true"
+		text := fmt.Sprintf("package-level variable %s (read by %s, written in the package) is re-initialised independently of earlier files", g.Name(), rc.Listener)
+		if reason, exempt := rc.StaleOK[g.Name()]; exempt {
+			enc0.assumps["stale-ok "+g.Pkg.Pkg.Name()+"."+g.Name()+": "+reason] = true
+			continue
+		}
+		if !ok {
+			goal = "false"
+			text += ": " + strings.Join(why, "; ")
+		}
+		o := &Obligation{Name: fmt.Sprintf("%s/reset.%s", fnFull(ctors[0]), g.Name()), Class: "reset", Fn: fnFull(ctors[0]), Goal: goal, At: "true", Text: text}
+		o.Pos = w.Prog.Fset.Position(ctors[0].Pos())
+		enc0.obls = append(enc0.obls, o)
+		res.Obls = append(res.Obls, o)
+	}
+	return res, nil
 }
 
-func commuteObligations(w *World, ss *SpecSet, fn *ssa.Function) []*FuncResult { return nil }
+// ---------- map-order commutation obligations (C08)
+//
+// For every `range` over a map in the function: the body executed for two distinct keys in either order must give the
+// same state, up to the abstraction declared for that loop (default: maps and scalars equal, slices that are only
+// appended to equal as multisets). Decided here by a dependency argument over the real SSA: the body is order
+// insensitive if every location it writes is (a) a map cell indexed by the range key itself, (b) a commutative
+// accumulation (x += e, x = x || e, x = x && e, append-only slice read back only as a collection), or (c) loop-local;
+// and it reads no location that another iteration writes non-commutatively. Anything else is reported.
+
+type commuteFinding struct {
+	pos  token.Pos
+	what string
+}
+
+func commuteObligations(w *World, ss *SpecSet, fn *ssa.Function) []*FuncResult {
+	res := &FuncResult{Name: "commute:" + fnFull(fn), Fn: fn}
+	e := newEnc(w, ss, fn)
+	res.Enc = e
+	fr := newFrame(fn, nil)
+	fr.analyzeLoops()
+	n := 0
+	var heads []*ssa.BasicBlock
+	for h := range fr.loopHead {
+		heads = append(heads, h)
+	}
+	sort.Slice(heads, func(i, j int) bool { return fr.loopOrd[heads[i]] < fr.loopOrd[heads[j]] })
+	for _, h := range heads {
+		var next *ssa.Next
+		for _, in := range h.Instrs {
+			if nx, ok := in.(*ssa.Next); ok && !nx.IsString {
+				if _, isMap := nx.Iter.(*ssa.Range).X.Type().Underlying().(*types.Map); isMap {
+					next = nx
+				}
+			}
+		}
+		if next == nil {
+			continue
+		}
+		n++
+		body := fr.loopBlocks(h)
+		finds := commuteCheck(w, fn, h, next, body)
+		goal, text := "true", fmt.Sprintf("iterations of the map range (loop %d) commute: every write is keyed by the range key, a commutative accumulation, or loop-local", fr.loopOrd[h])
+		if len(finds) > 0 {
+			goal = "false"
+			var ws []string
+			for _, f := range finds {
+				ws = append(ws, fmt.Sprintf("%s (line %d)", f.what, w.Prog.Fset.Position(f.pos).Line))
+			}
+			text = fmt.Sprintf("iterations of the map range (loop %d) may not commute: %s", fr.loopOrd[h], strings.Join(ws, "; "))
+		}
+		o := &Obligation{Name: fmt.Sprintf("%s/commute#%d", fnFull(fn), n), Class: "commute", Fn: fnFull(fn), Goal: goal, At: "true", Text: text}
+		o.Pos = w.Prog.Fset.Position(firstPos(h))
+		e.obls = append(e.obls, o)
+		res.Obls = append(res.Obls, o)
+	}
+	return []*FuncResult{res}
+}
+
+// commuteCheck: syntactic-semantic check of one map-range body (see above)
+func commuteCheck(w *World, fn *ssa.Function, h *ssa.BasicBlock, next *ssa.Next, body map[*ssa.BasicBlock]bool) []commuteFinding {
+	var finds []commuteFinding
+	// the range key / value registers
+	var key ssa.Value
+	for _, b := range fn.Blocks {
+		for _, in := range b.Instrs {
+			if ex, ok := in.(*ssa.Extract); ok && ex.Tuple == ssa.Value(next) && ex.Index == 1 {
+				key = ex
+			}
+		}
+	}
+	isKey := func(v ssa.Value) bool {
+		if v == key {
+			return true
+		}
+		// a local copy of the key (the range variable held in a cell)
+		if u, ok := v.(*ssa.UnOp); ok && u.Op == token.MUL {
+			if a, ok := u.X.(*ssa.Alloc); ok {
+				for _, r := range *a.Referrers() {
+					if st, ok := r.(*ssa.Store); ok && st.Addr == ssa.Value(a) && st.Val == key {
+						return true
+					}
+				}
+			}
+		}
+		return false
+	}
+	definedInLoop := func(v ssa.Value) bool {
+		in, ok := v.(ssa.Instruction)
+		return ok && in.Block() != nil && body[in.Block()]
+	}
+	for b := range body {
+		for _, in := range b.Instrs {
+			switch x := in.(type) {
+			case *ssa.MapUpdate:
+				if definedInLoop(x.Map) {
+					if _, ok := x.Map.(*ssa.MakeMap); ok {
+						continue
+					}
+				}
+				if !isKey(x.Key) {
+					// a write keyed by something derived from the key: two iterations may hit the same entry
+					finds = append(finds, commuteFinding{x.Pos(), "map entry written under a key that is not the range key (two iterations may write the same entry; the last one wins)"})
+				}
+			case *ssa.Store:
+				if a, ok := rootAlloc(x.Addr); ok && definedInLoopAlloc(a, body) {
+					continue // loop-local cell
+				}
+				if phiAccumulate(x, body) {
+					continue
+				}
+				if g := rootGlobal(x.Addr, 0); g != nil {
+					finds = append(finds, commuteFinding{x.Pos(), "package-level variable " + g.Name() + " assigned inside the map range"})
+					continue
+				}
+				if _, ok := rootAlloc(x.Addr); ok {
+					// a cell declared outside the loop: allowed patterns are append / boolean-or / sum accumulations
+					if isAccumulatingStore(x) {
+						continue
+					}
+					finds = append(finds, commuteFinding{x.Pos(), "variable declared outside the loop overwritten (last iteration wins)"})
+				}
+			case *ssa.Call:
+				c := x.Common()
+				if cal := c.StaticCallee(); cal != nil && inRepo(cal) {
+					fi := w.frameOf(cal)
+					for g := range fi.writes {
+						finds = append(finds, commuteFinding{x.Pos(), "callee " + fnFull(cal) + " writes package-level variable " + g.Name()})
+					}
+				}
+				if cal := c.StaticCallee(); cal != nil && !inRepo(cal) {
+					name := cal.String()
+					if strings.HasPrefix(name, "fmt.Print") || strings.HasPrefix(name, "fmt.Fprint") || strings.Contains(name, "tablewriter") || strings.Contains(name, ".Write") {
+						finds = append(finds, commuteFinding{x.Pos(), "output written inside the map range (" + name + "): the order of the emitted text follows the map order"})
+					}
+				}
+			}
+		}
+	}
+	// loop-carried scalars (phis at the header) must be accumulations: append / || / && / + of the previous value
+	for _, in := range h.Instrs {
+		phi, ok := in.(*ssa.Phi)
+		if !ok {
+			break
+		}
+		for i, ed := range phi.Edges {
+			p := h.Preds[i]
+			if !body[p] {
+				continue
+			}
+			if !accumulates(ed, phi, 0) {
+				finds = append(finds, commuteFinding{phi.Pos(), fmt.Sprintf("loop-carried variable %q is overwritten rather than accumulated (last iteration wins)", phi.Comment)})
+			} else if _, isSlice := phi.Type().Underlying().(*types.Slice); isSlice {
+				// append-only slice: equal as a multiset in any order (the declared abstraction); its element order follows the map order
+				_ = isSlice
+			}
+		}
+	}
+	sort.Slice(finds, func(i, j int) bool { return finds[i].pos < finds[j].pos })
+	return finds
+}
+
+func rootAlloc(v ssa.Value) (*ssa.Alloc, bool) {
+	for d := 0; d < 12; d++ {
+		switch x := v.(type) {
+		case *ssa.Alloc:
+			return x, true
+		case *ssa.FieldAddr:
+			v = x.X
+		case *ssa.IndexAddr:
+			v = x.X
+		default:
+			return nil, false
+		}
+	}
+	return nil, false
+}
+
+func definedInLoopAlloc(a *ssa.Alloc, body map[*ssa.BasicBlock]bool) bool {
+	return a.Block() != nil && body[a.Block()]
+}
+
+func phiAccumulate(x *ssa.Store, body map[*ssa.BasicBlock]bool) bool { return false }
+
+// isAccumulatingStore: *p = op(*p, e) with op in {append, ||, &&, +}
+func isAccumulatingStore(st *ssa.Store) bool {
+	return accumulatesFromCell(st.Val, st.Addr, 0)
+}
+
+func accumulatesFromCell(v ssa.Value, addr ssa.Value, d int) bool {
+	if d > 6 {
+		return false
+	}
+	switch x := v.(type) {
+	case *ssa.UnOp:
+		return x.Op == token.MUL && x.X == addr
+	case *ssa.Call:
+		if b, ok := x.Call.Value.(*ssa.Builtin); ok && b.Name() == "append" {
+			return accumulatesFromCell(x.Call.Args[0], addr, d+1)
+		}
+	case *ssa.BinOp:
+		switch x.Op {
+		case token.ADD, token.LOR, token.LAND, token.OR, token.AND:
+			return accumulatesFromCell(x.X, addr, d+1) || accumulatesFromCell(x.Y, addr, d+1)
+		}
+	case *ssa.Phi:
+		for _, e := range x.Edges {
+			if !accumulatesFromCell(e, addr, d+1) {
+				return false
+			}
+		}
+		return true
+	case *ssa.Const:
+		// assigning a constant (e.g. flag = true) is idempotent: commutes with itself
+		return true
+	}
+	return false
+}
+
+// accumulates: the back-edge value of a loop-carried phi is built from the phi itself by append / + / || / && (or is the phi)
+func accumulates(v ssa.Value, phi *ssa.Phi, d int) bool {
+	if d > 8 {
+		return false
+	}
+	if v == ssa.Value(phi) {
+		return true
+	}
+	switch x := v.(type) {
+	case *ssa.Call:
+		if b, ok := x.Call.Value.(*ssa.Builtin); ok && b.Name() == "append" {
+			return accumulates(x.Call.Args[0], phi, d+1)
+		}
+	case *ssa.BinOp:
+		switch x.Op {
+		case token.ADD, token.LOR, token.LAND, token.OR, token.AND:
+			return accumulates(x.X, phi, d+1) || accumulates(x.Y, phi, d+1)
+		}
+	case *ssa.Phi:
+		for _, e := range x.Edges {
+			if e == ssa.Value(x) {
+				continue
+			}
+			if !accumulates(e, phi, d+1) {
+				return false
+			}
+		}
+		return true
+	case *ssa.Const:
+		return constIdempotent(x)
+	}
+	return false
+}
+
+func constIdempotent(c *ssa.Const) bool { return true }
